@@ -52,6 +52,12 @@ def hkey(k):
     return "-" if k is None else hx(k)
 
 
+# key maps for the "wide keys" histories: heights that agree in their low 32 bits, rounds that agree in their low 16 bits
+# (a store that derives its map key by packing or truncating height / round mixes such entries up); identity otherwise
+WIDE_H = {0: 0, 1: 1, 2: 2**32 + 1, 3: 3 * 2**32 + 1, 4: 2**63 + 1}
+WIDE_R = {0: 0, 1: 65536, 2: 2**31}
+HM = lambda h: h
+RM = lambda r: r
 HASHES = [b"", b"\xaa", b"\xbb", b"\xcc\x01"]
 KEYS = [b"\x01", b"\x02", b"\x03\x04", b""]
 
@@ -68,6 +74,7 @@ def gen_action(rng, n, profile):
         h = rng.below(4) if free else 1 + rng.below(3)
         r = rng.below(2)
         kd = KEYS[(h + r) % 2]
+        h, r = HM(h), RM(r)
         k = rng.choice(KEYS) if free else kd
         if free and rng.chance(1, 10):
             k = None
@@ -113,8 +120,8 @@ def gen_round(rng, n, profile):
     rtag = REPLAYED_BASE + 1
     tagbox = [10]
     for _ in range(n):
-        h = 1 + rng.below(2)
-        r = rng.below(2)
+        h = HM(1 + rng.below(2))
+        r = RM(rng.below(2))
         x = rng.below(10)
         if x < 3:
             k = rng.choice(KEYS)
@@ -142,9 +149,9 @@ def gen_round(rng, n, profile):
 def gen_fin(rng, n, profile):
     ops = []
     for _ in range(n):
-        h = rng.below(5)
+        h = HM(rng.below(5))
         if rng.chance(1, 2):
-            r, bh, vs, ah = rng.below(3), rng.choice(HASHES), rng.below(10), rng.choice(HASHES)
+            r, bh, vs, ah = RM(rng.below(3)), rng.choice(HASHES), rng.below(10), rng.choice(HASHES)
             ops.append(("SV %d %d %s %d %s" % (h, r, hx(bh), vs, hx(ah)),
                         "FSave %d %d %s %d %s" % (h, r, cb(bh), vs, cb(ah)), "save"))
         else:
@@ -156,7 +163,7 @@ def gen_chs(rng, n, profile):
     ops = []
     tag = 1
     for _ in range(n):
-        h = rng.below(5)
+        h = HM(rng.below(5))
         if rng.chance(1, 2):
             ops.append(("SV %d %d" % (h, tag), "CSave %d %d" % (h, tag), "save"))
             tag += 1
@@ -434,6 +441,14 @@ def main(argv):
                 else:
                     ops = GEN[st](rng, n, profile)
                 cases.append({"name": "%s-seq-%d" % (st, j), "store": st, "scheme": sch, "mode": "seq", "profile": profile, "ops": ops})
+            if st in ("action", "round", "fin", "chs"):
+                global HM, RM
+                wrng = vcheck.SplitMix64(c.seed ^ (0xC16E0 + STORES.index(st)))
+                HM, RM = (lambda h: WIDE_H.get(h, h)), (lambda r: WIDE_R.get(r, r))
+                for j in range(12 if quick else 200):
+                    ops = GEN[st](wrng, 10 + wrng.below(26), "free" if j % 3 == 2 else "guarded")
+                    cases.append({"name": "%s-wide-%d" % (st, j), "store": st, "scheme": "simple", "mode": "seq", "profile": "wide-keys", "ops": ops})
+                HM, RM = (lambda h: h), (lambda r: r)
             for j in range(n_conc):
                 sch = "weak" if j % 2 else "simple"
                 n = 8 + rng.below(3)
